@@ -285,7 +285,7 @@ Section LNDProofs.
       cbv zeta. repeat split; try (rewrite ?U1, ?U3, ?U4, ?U5; reflexivity).
       + apply failed_err; exact Ef.
       + rewrite U2. reflexivity.
-    - cbv zeta. repeat split; cbn; auto. apply failed_err; exact Ef.
+    - cbv zeta. repeat split; cbn; auto.
   Qed.
 
   Lemma fold_recone_spec E : forall l s, let s' := fold_left (recone E) l s in
@@ -319,14 +319,14 @@ Section LNDProofs.
       + apply A5 in H. destruct H as [H _]. cbn [l_err set_queue] in H. apply touch_err in H. exact H.
       + intros Hd HP. destruct (A5 H) as [He Hk]. cbn [l_err set_queue] in He.
         pose proof (touch_PG dl s E He Hd HP) as HP'. unfold PG in *. rewrite A1, Et in *.
-        destruct HP' as (I1 & I2 & I3). repeat split; auto.
+        destruct HP' as (I1 & I2 & I3). split; [exact I1|]. split; [|exact I3]. intros sp0. split.
         * intros Hx. apply Hk in Hx. cbn [l_losses set_queue] in Hx. destruct Hx; [apply I2|]; auto.
         * intros Hx. apply Hk. auto.
-      + intros t0 Ht0. rewrite A1. rewrite (touch_tri_some s E t0 Ht0) in Et. congruence.
+      + intros t0 Ht0. rewrite A1, (touch_tri_some s E t0 Ht0). exact Ht0.
     - cbv zeta. repeat split; auto.
-      + apply touch_err; auto.
+      + apply (touch_err s E); auto.
       + intros Hd HP. apply touch_PG; auto.
-      + intros t0 Ht0. rewrite (touch_tri_some s E t0 Ht0) in Et. congruence.
+      + intros t0 Ht0. rewrite (touch_tri_some s E t0 Ht0). exact Ht0.
   Qed.
 
   (* tell_pending *)
@@ -350,7 +350,8 @@ Section LNDProofs.
     unfold tell_pending. destruct (failed s) eqn:Ef.
     { cbv zeta. repeat split; auto; apply failed_err in H; congruence. }
     destruct (e_inb E p) eqn:Ei; cbn [negb].
-    2:{ cbv zeta. repeat split; auto. apply failed_err; auto. intros [H1|[_ H1]]; [auto|discriminate]. }
+    2:{ cbv zeta. split; [reflexivity|]. split; [reflexivity|]. intros H. split; [exact H|]. split; [auto|].
+        intros x. split; [auto|]. intros [H1|[_ H1]]; [auto|discriminate]. }
     set (s0 := set_pend s (nat_insert p (l_pend s))).
     pose proof (touch_data s0 E) as [D1 D2]. pose proof (touch_ok s0 E) as D3.
     assert (Hbase : l_err (touch E s0) = None -> l_err s = None /\
@@ -386,7 +387,7 @@ Section LNDProofs.
   Lemma touch_post s E : ask_post s (touch E s).
   Proof.
     pose proof (touch_data s E) as [D1 D2]. split; [exact D1|]. split; [rewrite touch_ok; auto|].
-    intros He. split; [apply touch_err; auto|]. intros HP. unfold P. rewrite D1. apply touch_PG; auto.
+    intros He. split; [apply (touch_err s E); auto|]. intros HP. unfold P. rewrite D1. apply touch_PG; auto.
   Qed.
 
   Lemma tellp_post E s p hint : ask_post s (tellp E s p hint).
